@@ -1,9 +1,9 @@
 import DarkluaModel.C07.Fuel
-/-! # C07 — coverage instance: `remove_floor_division`
+/-! # C07 — `remove_floor_division`: the expression hook
 
-The statement hook hands `x //= y` to a nested `remove_compound_assignment` visitor; the instance
-takes as INPUT INVARIANT that no `//=` statement is present (`A.cassign .idiv ≠ 0` with `A` at
-zero on the input) — which is what running `remove_compound_assignment` first establishes. -/
+`a // b` becomes `math.floor(a / b)` (or a call of the local alias). These lemmas are used by the well-formedness
+instance (C07/Inst/Wf.lean); the coverage instance itself — `//=` statements included, which the statement hook hands
+to a nested `remove_compound_assignment` visitor — is in C07/Inst/FloorDivFull.lean. -/
 namespace DarkluaModel.C07
 open DarkluaModel.Rules Visitor RemoveFloorDivision
 
@@ -44,46 +44,5 @@ theorem floor_expr_good (hdiv : A.bin .div = 0) (e : Expr) (s : State) (hw : wfE
     apply GoodE.of A _ hw hc (Nat.le_refl _)
     simp [processExpression, shallowE, floorDivisionCensus]
     try exact shallowF_floor _
-
-theorem cover_remove_floor_division (hdiv : A.bin .div = 0) (hno : A.cassign .idiv ≠ 0) :
-    Cover RemoveFloorDivision.processor (floorDivisionCensus.add A) A Wfloor (fun _ => true) where
-  cont_ok := fun h => by simp [add_cont, floorDivisionCensus, h]
-  afterBlock_id := fun _ _ => rfl
-  scope_id := fun _ _ _ => rfl
-  afterStmtNode_id := fun _ _ => rfl
-  last_id := fun _ _ => rfl
-  afterNode_id := fun _ _ => rfl
-  ty_id := fun _ _ => rfl
-  attrs_id := fun _ _ => rfl
-  insert_id := fun _ _ => rfl
-  insertLocal_id := fun _ _ _ => rfl
-  insertLocalFn_id := fun _ _ => rfl
-  target_id := fun _ _ => rfl
-  exprPos := fun e s _ hw hc => floor_expr_good A hdiv e s hw hc
-  prefPos := by
-    intro e s s' hp hw hc
-    show GoodE _ _ _ e e
-    apply GoodE.of A _ hw hc (Nat.le_refl _)
-    cases e <;> simp_all [isPrefix, shallowE, floorDivisionCensus]
-  nodePos := fun e _ hw hc hs => ⟨hw, hc, Nat.le_refl _, hs⟩
-  stmtPos := by
-    intro st s hw hc _
-    have hid : (RemoveFloorDivision.processor.stmt st s).1 = st := by
-      cases st with
-      | cassign op t v =>
-        cases op <;> first | rfl | (simp [countS] at hc; exact absurd hc.1.1 hno)
-      | _ => rfl
-    rw [hid]
-    refine ⟨hw, hc, Nat.le_refl _, ?_⟩
-    intro hcs s'
-    show GoodS _ _ _ st st
-    refine GoodS.of A _ hw hc (Nat.le_refl _) ?_ hcs
-    cases st with
-    | cassign op t v =>
-      cases op <;> first | (simp [shallowS, floorDivisionCensus]; done) | (simp [countS] at hc; exact absurd hc.1.1 hno)
-    | _ =>
-      simp [shallowS, floorDivisionCensus]
-      try exact shallowF_floor _
-  blockPos := fun _ _ hw hc => ⟨hw, hc, Nat.le_refl _, fun _ _ => rfl⟩
 
 end DarkluaModel.C07
